@@ -91,7 +91,83 @@ def engine(res, spec, tier, seed, extended=False):
                 found('split_run_differs_in_events', {'scenario': name0, 'variant': vname, 'args': extra, 'first_differing_step': first}, sc, extra)
             if not eng_c01.stats_close(r['stats'], base['stats']):
                 found('split_run_differs_in_summary', {'scenario': name0, 'variant': vname}, sc, extra)
-    res.notes['eng_c15'] = {'scenarios': len(plan), 'steps': n, 'wall_s': round(time.time() - t0, 1)}
+    # every way of building the initial state must hand the configured step length to the state: the sampling initialiser
+    # (vehicles drawn at random instead of read from a file) is a second loader beside load_simulation
+    sampled = sampled_loader_clock(seed, 3 if tier == 'quick' else 8)
+    res.cov['evaluations'] += sampled['runs']
+    for kind, detail in sampled['found']:
+        found(kind, detail, 'initialize_simulation_with_sampling', ['--sampled'])
+    if sampled.get('error'):
+        res.add_broken('harness', 'sampling-initialiser run failed', sampled['error'])
+    res.notes['eng_c15'] = {'scenarios': len(plan), 'steps': n, 'sampled_loader_runs': sampled['runs'], 'wall_s': round(time.time() - t0, 1)}
+
+def sampled_loader_clock(seed, n_runs):
+    """build simulations with initialize_simulation_with_sampling (haversine network, vehicles placed at the bases) for several
+    step lengths and intervals; the clock must advance by the configured step, crank(a);crank(b) must end where crank(a+b) ends,
+    the batch runner must stop exactly at the end time and the stepping runner must refuse after (end - start) / step steps"""
+    out = {'runs': 0, 'found': []}
+    try:
+        import logging
+        from nrel.hive.app.hive_cosim import crank
+        from nrel.hive.dispatcher.instruction_generator.dispatcher import Dispatcher
+        from nrel.hive.dispatcher.instruction_generator.charging_fleet_manager import ChargingFleetManager
+        from nrel.hive.initialization.initialize_simulation_with_sampling import initialize_simulation_with_sampling
+        from nrel.hive.reporting.reporter import Reporter
+        from nrel.hive.resources.mock_lobster import mock_config
+        from nrel.hive.runner.local_simulation_runner import LocalSimulationRunner
+        from nrel.hive.runner.runner_payload import RunnerPayload
+        from nrel.hive.state.simulation_state.update.update import Update
+        rng = random.Random(seed * 7919 + 15)
+        def fresh(start, end, delta):
+            conf = mock_config(start_time=start, end_time=end, timestep_duration_seconds=delta).suppress_logging()
+            turn = [0]
+            def at_a_base(sim):
+                bases = sorted(sim.get_bases(), key=lambda b: b.id)
+                turn[0] += 1
+                return sim.road_network.link_from_geoid(bases[turn[0] % len(bases)].geoid)
+            sim, env = initialize_simulation_with_sampling(config=conf, vehicle_count=4, vehicle_location_sampling_function=at_a_base, random_seed=seed)
+            env = env.set_reporter(Reporter())
+            return RunnerPayload(sim, env, Update.build(env.config, (Dispatcher(env.config.dispatcher), ChargingFleetManager(env.config.dispatcher))))
+        prev = logging.root.manager.disable
+        logging.disable(logging.CRITICAL)
+        try:
+            for k in range(n_runs):
+                delta = [30, 90, 60, 20, 45, 75, 120, 15][k % 8]
+                n = rng.randint(5, 12)
+                start = rng.choice([0, 3600, 86400 - 3 * delta])
+                end = start + n * delta
+                d = {'step_length': delta, 'start': start, 'end': end}
+                rp = fresh(start, end, delta)
+                if int(rp.s.sim_timestep_duration_seconds) != delta:
+                    out['found'].append(('loaded_state_ignores_the_configured_step_length', dict(d, state_step_length=int(rp.s.sim_timestep_duration_seconds))))
+                a = rng.randint(1, n - 1)
+                times = [int(rp.s.sim_time)]
+                for _ in range(n):
+                    rp = crank(rp, 1).runner_payload
+                    times.append(int(rp.s.sim_time))
+                if times[0] != start or any(y - x != delta for x, y in zip(times, times[1:])):
+                    out['found'].append(('clock_not_uniform', dict(d, times=times[:5])))
+                ab = crank(crank(fresh(start, end, delta), a).runner_payload, n - a).runner_payload
+                if int(ab.s.sim_time) != end:
+                    out['found'].append(('split_run_differs_in_state', dict(d, split=[a, n - a], final_time=int(ab.s.sim_time))))
+                ran = LocalSimulationRunner.run(fresh(start, end, delta))
+                if int(ran.s.sim_time) != end:
+                    out['found'].append(('runner_does_not_cover_exactly_the_interval', dict(d, mode='batch', final_time=int(ran.s.sim_time))))
+                rp, taken = fresh(start, end, delta), 0
+                while taken <= 2 * n:
+                    nxt = LocalSimulationRunner.step(rp)
+                    if nxt is None:
+                        break
+                    rp, taken = nxt, taken + 1
+                if taken != n or int(rp.s.sim_time) != end:
+                    out['found'].append(('runner_does_not_cover_exactly_the_interval', dict(d, mode='step', steps_taken=taken, final_time=int(rp.s.sim_time))))
+                out['runs'] += 4
+        finally:
+            logging.disable(prev)
+    except Exception as ex:
+        import traceback
+        out['error'] = traceback.format_exc()[-1500:]
+    return out
 
 def replayer(payload):
     if payload.get('engine') != 'eng_c15':
